@@ -266,8 +266,23 @@ def w_program(ctx, rng, i):
             n = len(am)
             k = int(rng.integers(0, 6)) if n else 0
             idx = [int(v) for v in rng.integers(-n, n, k)] if n else []
-            form = int(rng.integers(0, 4))
-            arg = [idx, tuple(idx), np.array(idx, dtype=np.int64), iter(list(idx))][form]
+            form = int(rng.integers(0, 5))
+            if form == 4:
+                # the positions as a range object (a list of explicit positions like any other: negative members count from the end)
+                idx = []
+                if n:
+                    for _ in range(20):
+                        a0, st_ = int(rng.integers(-n, n)), int(rng.choice([1, 1, 2, 3, -1, -2]))
+                        b0 = int(np.clip(a0 + st_ * int(rng.integers(0, 6)), -n - (1 if st_ < 0 else 0), n))
+                        rg_ = range(a0, b0, st_)
+                        if all(-n <= j < n for j in rg_):
+                            idx = list(rg_)
+                            break
+                    else:
+                        rg_ = range(0)
+                else:
+                    rg_ = range(0)
+            arg = [idx, tuple(idx), np.array(idx, dtype=np.int64), iter(list(idx)), None][form] if form < 4 else rg_
             r, rm = a[arg], [am[j] for j in idx]
             op = "fancy%d" % form
             if form == 2 and k:
@@ -514,8 +529,12 @@ def w_video_pair(ctx, rng, i):
     tmp = tempfile.mkdtemp(prefix="vf-c19-")
     asked = []
 
+    unannotated = bool(rng.random() < 0.5)        # some frames have no annotation: the resolver answers None for them
+
     def resolver(path, frame):
         asked.append((os.path.basename(str(path)), int(frame)))
+        if unannotated and int(frame) % 3 == 1:
+            return None
         return {"f": ms.PointCloud(np.array([[float(frame), float(frame) + 0.5]]))}
     try:
         # (file names with a dot inside the stem - take2.cam1.mp4 - are ordinary file names)
@@ -565,6 +584,9 @@ def w_video_pair(ctx, rng, i):
             n0 = len(asked)
             img = ll[j]
             ctx.tap("video_element_read", "calls"); ctx.tap("video_element_read", "checked")
+            if img is None or not hasattr(img, "pixels"):
+                ctx.fail("element_value_differs_from_list_model", cls="LazyList", mech="frame_without_annotation_is_not_an_image", got=repr(img)[:60])
+                continue
             if img.pixels.dtype != np.uint8:
                 ctx.fail("element_value_differs_from_list_model", cls="LazyList", mech="frame_of_a_normalize_False_list_is_%s" % img.pixels.dtype)
             got = frame_id(img)
@@ -572,7 +594,10 @@ def w_video_pair(ctx, rng, i):
                 ctx.fail("element_value_depends_on_what_was_read_before", cls="LazyList", mech="two_videos", got=got, expected=(k + off) % 256, which=which)
             gname = "PTS" if default_resolver else "f"
             lm = img.landmarks[gname].points if img.has_landmarks and gname in img.landmarks else None
-            if lm is None or float(lm[0, 0]) != float(k):
+            if not default_resolver and unannotated and k % 3 == 1:
+                if lm is not None:
+                    ctx.fail("element_value_differs_from_list_model", cls="LazyList", mech="landmarks_on_a_frame_the_resolver_left_out")
+            elif lm is None or float(lm[0, 0]) != float(k):
                 ctx.fail("element_value_differs_from_list_model", cls="LazyList", mech="landmarks_of_another_frame" + (":default_resolver" if default_resolver else ""), got=None if lm is None else lm.tolist(), expected=k)
             if not default_resolver and asked[n0:] != [(fname, k)]:
                 ctx.fail("element_read_evaluated_wrong_things", cls="LazyList", mech="resolver_asked_about_other_frames", asked=asked[n0:][:4], expected=[fname, k])
